@@ -34,7 +34,8 @@ def trySetNp (uid : Nat) (n : Int) : M Bool := fun s =>
   let w := (s.ws.find? (·.uid = uid)).getD defaultWatcher
   let n := if n < 0 then 0 else n
   if w.singleton && n > 1 then (false, s)
-  else (true, { s with ws := s.ws.map fun w => if w.uid = uid then { w with np := n } else w })
+  else (true, { s with ws := s.ws.map fun w =>
+                  if w.uid = uid && !(w.singleton && n > 1) then { w with np := n } else w })
 def bumpHook (uid : Nat) (h : String) (i : Nat) : M Unit :=
   modW uid fun w => { w with hookCalls := (h, i + 1) :: w.hookCalls.filter (·.1 ≠ h) }
 def setObjStopping (pid : Nat) (b : Bool) : M Unit := modO pid fun o => { o with stopping := b }
